@@ -141,19 +141,36 @@ def run(chk):
                 if snapshot(mc) != got:
                     chk.violation('versions:dynamic:not-idempotent', 'a second initglobals changed the tables after %s'
                                   % json.dumps(row['hist']), {'row': row})
-            # the order predicates follow the rebuilt index map
-            if k % 50 == 0:
+            # after a full re-initialisation the order predicates - as every other module sees them
+            # (utility and ConnectionContext hold their own references to the index map) - follow the rebuilt order
+            last = row['hist'][-1]
+            if last['op'] == 'reinit' and last['known']:
                 Pk = list(mc.KNOWN_PROTOCOL_VERSIONS)
+                bad = None
                 for i in range(len(Pk)):
+                    cx = ConnectionContext(protocol_version=Pk[i])
                     for j in range(len(Pk)):
                         try:
                             ok = utility.protocol_earlier(Pk[i], Pk[j]) == (i < j) and \
-                                utility.protocol_earlier_eq(Pk[i], Pk[j]) == (i <= j)
-                        except KeyError:
-                            ok = True       # index map not rebuilt yet (no full re-initialisation)
-                        if not ok:
-                            chk.violation('versions:dynamic:order', 'order predicates disagree with the list order after %s'
-                                          % json.dumps(row['hist']), {'row': row})
+                                utility.protocol_earlier_eq(Pk[i], Pk[j]) == (i <= j) and \
+                                cx.protocol_later(Pk[j]) == (i > j) and cx.protocol_later_eq(Pk[j]) == (i >= j) and \
+                                cx.protocol_in_range(Pk[j], Pk[-1]) == (j <= i < len(Pk) - 1)
+                        except Exception as e:      # noqa
+                            ok, bad = False, 'comparing %r with %r raised %r' % (Pk[i], Pk[j], e)
+                        if not ok and bad is None:
+                            bad = 'predicates disagree with the list order for %r, %r' % (Pk[i], Pk[j])
+                if bad:
+                    chk.violation('versions:dynamic:order', 'after %s: %s' % (json.dumps(row['hist']), bad), {'row': row})
+                try:
+                    from minecraft.networking.connection import Connection
+                    c = Connection('h', 1, allowed_versions=set(mc.SUPPORTED_PROTOCOL_VERSIONS))
+                    if c.context.protocol_version != mc.SUPPORTED_PROTOCOL_VERSIONS[-1] and \
+                            mc.PROTOCOL_VERSION_INDICES[c.context.protocol_version] != max(mc.PROTOCOL_VERSION_INDICES[p] for p in mc.SUPPORTED_PROTOCOL_VERSIONS):
+                        chk.violation('versions:dynamic:latest', 'Connection picks %r as the latest supported version after %s'
+                                      % (c.context.protocol_version, json.dumps(row['hist'])), {'row': row})
+                except Exception as e:      # noqa
+                    if mc.SUPPORTED_PROTOCOL_VERSIONS:
+                        chk.violation('versions:dynamic:latest', 'constructing a Connection after %s raised %r' % (json.dumps(row['hist']), e), {'row': row})
             if k == len(rows) // 2:
                 chk.sample({'history': row['hist'], 'supP': want['supP'], 'knownP': want['knownP']})
     finally:
